@@ -18,6 +18,7 @@ from .. import ag as AG
 
 PID = 'C02'
 TOLS = [1e-2, 1e-4, 1e-6]
+FINE = 1 << 40          # residuals against the certificate are recorded in units of 2^-40
 KMAXS = [0, 1, 2, 3, 10, 1000]
 
 
@@ -32,10 +33,13 @@ def interval_fx(v):
     return [math.floor(s), math.ceil(s)]
 
 
-def one_run(build, kind, sr_name, method, tol, kmax, dtype, project, tol_scale=1.0):
+def one_run(build, kind, sr_name, method, tol, kmax, dtype, project, tol_scale=1.0, fine=None):
     import torch, fggs
     run = {'sr': sr_name, 'method': method, 'kmax': kmax, 'tolu': max(1, math.ceil(tol * tol_scale * AG.FXS)), 'out': 'ok', 'warned': False, 'res': {},
            'tag': [kind, method, f'tol={tol}', f'kmax={kmax}', str(dtype).replace('torch.', '')]}
+    if fine is not None and str(dtype) == 'torch.float64' and tol * tol_scale <= 1.5e-5:
+        run['tolf'] = int(math.ceil(tol * tol_scale * FINE))
+        run['resid'] = {}
     import sys
     SPM = sys.modules['fggs.sum_product']
     log = getattr(SPM, '_verif_trace', None)
@@ -43,6 +47,8 @@ def one_run(build, kind, sr_name, method, tol, kmax, dtype, project, tol_scale=1
         del log[:]
     try:
         g = build()
+        if log is not None:
+            del log[:]          # (a history may have queried the object while it was being built)
         with warnings.catch_warnings(record=True) as wl:
             warnings.simplefilter('always')
             try:
@@ -54,10 +60,26 @@ def one_run(build, kind, sr_name, method, tol, kmax, dtype, project, tol_scale=1
         for el, t in sp.items():
             if el.is_nonterminal:
                 run['res'][el.name] = project(t.to_dense())
+                if 'resid' in run:
+                    run['resid'][el.name] = fine(el.name, t.to_dense())
     except Exception as e:  # noqa
         run['out'] = 'raise:' + type(e).__name__
         run['err'] = str(e)[:160]
+        run.pop('resid', None)
+        run.pop('tolf', None)
     return run
+
+
+def fine_residuals(a, value_of):
+    """el name, dense tensor -> residuals (observed value - certified least fixed point) in units of 2^-40, clipped"""
+    def f(name, t):
+        out = []
+        for x, c in zip(t.reshape(-1).tolist(), a['cert'][name]):
+            v = value_of(float(x))
+            d = (v - c / AG.FXS) * FINE if math.isfinite(v) else (1 << 30)
+            out.append(int(max(-(1 << 30), min(1 << 30, round(d)))) if not math.isnan(d) else (1 << 30))
+        return out
+    return f
 
 
 def drive_fx(args):
@@ -70,7 +92,7 @@ def drive_fx(args):
     combos = []
     for kind in ('real', 'log'):
         for method in ('fixed-point', 'newton', 'linear'):
-            for tol in (TOLS if tier == 'thorough' else [TOLS[i % 3]]):
+            for tol in ((TOLS + [0.0]) if tier == 'thorough' else [(TOLS + [0.0])[(i + len(combos)) % 4]]):
                 for kmax in (KMAXS if tier == 'thorough' else [KMAXS[(i + len(combos)) % 6], 1000]):
                     combos.append((kind, method, tol, kmax))
     for (kind, method, tol, kmax) in combos:
@@ -82,7 +104,30 @@ def drive_fx(args):
         # Log semiring: the stopping criterion bounds the difference of LOG-values by tol, i.e. the difference
         # of values by max(value) (e^tol - 1): the absolute tolerance handed to the judge is scaled accordingly
         scale = 1.0 if kind == 'real' else 1.01 * max(max(v) for v in a['cert'].values()) / AG.FXS
-        runs.append(one_run(lambda: AG.build_fgg_fx(a, kind, dtype)[0], kind, 'fx', method, tol, kmax, dtype, proj, max(scale, 1.0) if kind == 'log' else 1.0))
+        fine = fine_residuals(a, (lambda v: v) if kind == 'real' else (lambda v: math.exp(v) if v < 30 else math.inf))
+        hist = i % 5 == 2 and kmax == 1000
+        if hist:
+            # a HISTORY on one grammar object: solve while a recursive rule is still missing, add it, solve again (judged)
+            rec = [ri for ri, r in enumerate(a['rules']) if any(not a['els'][e['lab']]['t'] for e in r['edges'])]
+
+            def build(kind=kind, dtype=dtype, method=method, rec=rec):
+                import fggs
+                g, info = AG.build_fgg_fx(a, kind, dtype, defer_rules=[rec[len(rec) // 2]] if rec else 0)
+                try:
+                    with warnings.catch_warnings():
+                        warnings.simplefilter('ignore')
+                        with torch.no_grad():
+                            fggs.sum_products(g, method='fixed-point' if method == 'linear' else method, semiring=AG.semiring_for(kind, dtype), kmax=50)
+                except Exception:
+                    pass
+                info['add_deferred']()
+                return g
+        else:
+            build = lambda kind=kind, dtype=dtype: AG.build_fgg_fx(a, kind, dtype)[0]
+        r = one_run(build, kind, 'fx', method, tol, kmax, dtype, proj, max(scale, 1.0) if kind == 'log' else 1.0, fine=fine)
+        if hist:
+            r['tag'] = r['tag'] + ['query_then_add_rule']
+        runs.append(r)
     # the same iteration at another MAGNITUDE (Log semiring): in a globally linear grammar every constant rule gets a scalar
     # factor exp(-280); all log-values are then shifted by exactly -280 and are judged after shifting back.  A stopping
     # rule that is relative to the size of the values stops far too early here.
